@@ -201,16 +201,19 @@ def execute(engine, config, ops=None, run_seed=None, max_ops=None):
         "faults_fired": ctx.faults_fired,
         "faults_armed": ctx.faults_armed,
         "states": sorted(ctx.states),
-        "sig": history_signature(rec["ops"]),
+        "sig": history_signature(rec["ops"], getattr(engine, "history_sig", None)),
     }
     return rec
 
 
-def history_signature(ops):
+def history_signature(ops, custom=None):
     """Abstract history signature: op kinds with bucketed key arguments."""
     parts = []
     for op in ops:
         if op.get("_skipped"):
+            continue
+        if custom is not None and "fault" not in op:
+            parts.append(custom(op))
             continue
         k = _op_kind(op)
         for key in ("param", "layout", "what", "target", "kind", "fn"):
